@@ -8,7 +8,7 @@
    DsoStream, ThreadNames, CtxModel ...); what this file decides is the LAYOUT: which bytes go where, which offsets
    are stored where, what the directory says.  Definitions only (proofs: ImageProofs.v, ImageDirProofs.v). *)
 From Coq Require Import List NArith Arith Bool.
-From MDW Require Import Bytes MemWriter Writer Text MiniDump WComb MemInfo GenTypes Generated PlanProofs.
+From MDW Require Import Bytes MemWriter Writer Text MiniDump WComb MemInfo GenTypes Generated Plan.
 Import ListNotations.
 Local Open Scope nat_scope.
 
